@@ -13,6 +13,14 @@ For androguard/core/dex/__init__.py, core/axml/__init__.py, core/apk/__init__.py
 * `countLoops`  every `for` / comprehension over `range(<non-constant>)` inside a parser constructor or parse
                 routine: (file, function, range argument, consumes) where `consumes` says whether the loop body
                 reads from the buffer or constructs an item from it on every iteration (`count_loops_consume`).
+* `regexes`     every `re.compile/match/search/sub/subn/fullmatch/findall/finditer/split` call: (file, function,
+                pattern text with non-ASCII escaped, or "<dynamic:expr>" when the pattern is not a literal,
+                suspicious) where `suspicious` is a conservative syntactic test for catastrophic backtracking over
+                the parsed pattern (`re._parser`): a repeat with maximum > 1 whose body can match the empty string,
+                or contains a variable repeat / alternation whose first characters overlap with what may follow it
+                inside the loop (`(x+)*`, `(x*)*`, `(a|ab)*`, `([.-]+[a-z]*)*`), or two adjacent variable repeats with
+                overlapping first sets (`a*a*`).  Props/C35.lean (`regexes_linear`) requires every pattern text to
+                be in the hand-audited list of Model/Loops.lean and not suspicious.
 * the constants the loop models use: chunk type codes, ARSCHeader.SIZE, the reader's chunk size, the number of
   LEB128 operands DebugInfoItem reads per debug opcode, the fixed record sizes read per iteration.
 """
@@ -184,6 +192,180 @@ def scan(path, rel):
     return tree, funcs, out_loops, out_counts
 
 
+# ---------------------------------------------------------------------------------- regular expressions
+RE_FUNCS = {"compile", "match", "search", "sub", "subn", "fullmatch", "findall", "finditer", "split"}
+_UNIVERSE = frozenset(list(range(0, 0x250)) + [0x2000, 0xD7FF, 0xD800, 0xDFFF, 0xE000, 0xFFFD, 0xFFFF, 0x10000, 0x10FFFF])
+
+
+def _sre():
+    try:
+        import re._parser as P
+        import re._constants as C
+    except ImportError:                       # Python < 3.11
+        import sre_parse as P
+        import sre_constants as C
+    return P, C
+
+
+def _first(seq, C):
+    """(set of sample code points that can start a match of seq, seq can match the empty string)"""
+    out = set()
+    for op, av in seq:
+        f, nullable = _first_item(op, av, C)
+        out |= f
+        if not nullable:
+            return out, False
+    return out, True
+
+
+def _first_item(op, av, C):
+    if op is C.LITERAL:
+        return {av}, False
+    if op is C.NOT_LITERAL:
+        return set(_UNIVERSE) - {av}, False
+    if op is C.ANY:
+        return set(_UNIVERSE), False
+    if op is C.IN:
+        neg, acc = False, set()
+        for o, a in av:
+            if o is C.NEGATE:
+                neg = True
+            elif o is C.LITERAL:
+                acc.add(a)
+            elif o is C.RANGE:
+                acc |= {c for c in _UNIVERSE if a[0] <= c <= a[1]}
+            else:                              # CATEGORY ...: conservative
+                acc |= set(_UNIVERSE)
+        return (set(_UNIVERSE) - acc if neg else acc), False
+    if op is C.SUBPATTERN:
+        return _first(av[-1], C)
+    if op is C.BRANCH:
+        out, nullable = set(), False
+        for alt in av[1]:
+            f, n = _first(alt, C)
+            out |= f
+            nullable = nullable or n
+        return out, nullable
+    if op in (C.MAX_REPEAT, C.MIN_REPEAT) or getattr(C, "POSSESSIVE_REPEAT", None) is op:
+        lo, hi, body = av
+        f, n = _first(body, C)
+        return f, n or lo == 0
+    if op is C.ATOMIC_GROUP if hasattr(C, "ATOMIC_GROUP") else False:
+        return _first(av, C)
+    if op in (C.AT, C.ASSERT, C.ASSERT_NOT):
+        return set(), True
+    return set(_UNIVERSE), True               # GROUPREF, ... : conservative
+
+
+def _is_repeat(op, C):
+    return op in (C.MAX_REPEAT, C.MIN_REPEAT)
+
+
+def _inner_ambiguous(seq, follow, C):
+    """inside a loop: is there a choice point whose alternatives overlap with what may follow?"""
+    seq = list(seq)
+    for i, (op, av) in enumerate(seq):
+        rest_f, rest_n = _first(seq[i + 1:], C)
+        fol = rest_f | (follow if rest_n else set())
+        if _is_repeat(op, C):
+            lo, hi, body = av
+            bf, _n = _first(body, C)
+            if lo != hi and bf & fol:
+                return "variable repeat inside a repeated group overlaps with what follows it"
+            r = _inner_ambiguous(body, fol | bf, C)
+            if r:
+                return r
+        elif op is C.SUBPATTERN:
+            r = _inner_ambiguous(av[-1], fol, C)
+            if r:
+                return r
+        elif op is C.BRANCH:
+            firsts = [_first(a, C)[0] for a in av[1]]
+            for x in range(len(firsts)):
+                for y in range(x + 1, len(firsts)):
+                    if firsts[x] & firsts[y]:
+                        return "alternatives with overlapping first characters inside a repeated group"
+            for a in av[1]:
+                r = _inner_ambiguous(a, fol, C)
+                if r:
+                    return r
+    return None
+
+
+def regex_suspicious(pattern, flags=0):
+    """None when the conservative test finds nothing, else a reason"""
+    P, C = _sre()
+    try:
+        tree = P.parse(pattern, flags)
+    except Exception as e:  # noqa
+        return "unparsable: " + type(e).__name__
+
+    def walk(seq):
+        seq = list(seq)
+        # adjacent variable repeats with overlapping first sets (possibly across nullable items)
+        for i, (op, av) in enumerate(seq):
+            if _is_repeat(op, C) and av[0] != av[1]:
+                f1, _ = _first(av[2], C)
+                for op2, av2 in seq[i + 1:]:
+                    f2, n2 = _first_item(op2, av2, C)
+                    if _is_repeat(op2, C) and av2[0] != av2[1] and f1 & f2:
+                        return "adjacent variable repeats with overlapping first characters"
+                    if not n2:
+                        break
+        for op, av in seq:
+            if _is_repeat(op, C):
+                lo, hi, body = av
+                if hi > 1:
+                    bf, bn = _first(body, C)
+                    if bn:
+                        return "repeated group can match the empty string"
+                    r = _inner_ambiguous(body, bf, C)
+                    if r:
+                        return r
+                r = walk(body)
+                if r:
+                    return r
+            elif op is C.SUBPATTERN:
+                r = walk(av[-1])
+                if r:
+                    return r
+            elif op is C.BRANCH:
+                for a in av[1]:
+                    r = walk(a)
+                    if r:
+                        return r
+            elif op in (C.ASSERT, C.ASSERT_NOT):
+                r = walk(av[1])
+                if r:
+                    return r
+        return None
+
+    return walk(tree)
+
+
+def scan_regexes(tree, rel):
+    out = []
+
+    def walk(node, stack):
+        for ch in ast.iter_child_nodes(node):
+            if isinstance(ch, (ast.FunctionDef, ast.AsyncFunctionDef, ast.ClassDef)):
+                walk(ch, stack + [ch.name])
+                continue
+            if isinstance(ch, ast.Call) and isinstance(ch.func, ast.Attribute) and isinstance(ch.func.value, ast.Name) \
+                    and ch.func.value.id == "re" and ch.func.attr in RE_FUNCS and ch.args:
+                a = ch.args[0]
+                q = ".".join(stack) if stack else "<module>"
+                if isinstance(a, ast.Constant) and isinstance(a.value, str):
+                    why = regex_suspicious(a.value)
+                    out.append((rel, q, a.value.encode("unicode_escape").decode("ascii"), why is not None))
+                else:
+                    out.append((rel, q, "<dynamic:" + ast.unparse(a) + ">", False))
+            walk(ch, stack)
+
+    walk(tree, [])
+    return out
+
+
 def const_int(tree, name):
     for n in tree.body:
         if isinstance(n, ast.Assign) and isinstance(n.targets[0], ast.Name) and n.targets[0].id == name:
@@ -224,13 +406,14 @@ def dbg_operands(tree, dex_tree_consts):
 
 
 def generate(repo):
-    loops, counts = [], []
+    loops, counts, regexes = [], [], []
     trees = {}
     for rel in FILES:
         tree, funcs, l, c = scan(os.path.join(repo, rel), rel)
         trees[rel] = tree
         loops += l
         counts += c
+        regexes += scan_regexes(tree, rel)
     dex_t, axml_t = trees[FILES[0]], trees[FILES[1]]
     consts = {k: const_int(axml_t, k) for k in (
         "RES_XML_FIRST_CHUNK_TYPE", "RES_XML_LAST_CHUNK_TYPE", "RES_XML_RESOURCE_MAP_TYPE",
@@ -250,6 +433,11 @@ def generate(repo):
               "def countLoops : List (String × String × String × Bool) := ["]
     lines.append(",\n".join("  (%s, %s, %s, %s)" % (lean_str(a), lean_str(b), lean_str(c), "true" if d else "false")
                             for a, b, c, d in counts))
+    lines += ["]", "",
+              "/-- (file, function, pattern text (non-ASCII escaped) or <dynamic:expr>, suspicious shape) of every `re.*` call -/",
+              "def regexes : List (String × String × String × Bool) := ["]
+    lines.append(",\n".join("  (%s, %s, %s, %s)" % (lean_str(a), lean_str(b), lean_str(c), "true" if d else "false")
+                            for a, b, c, d in regexes))
     lines += ["]", ""]
     for k, v in consts.items():
         lines.append(f"def {k} : Nat := {v}")
